@@ -13,6 +13,8 @@ K12 == Corpus("K12")
 BAD12 == Corpus("BAD12")
 TH12 == Corpus("TH12")
 NK == Len(K12)
+T11 == Corpus("T11")
+K11 == Corpus("K11")
 
 VARIABLES c, phase
 vars == <<c, phase>>
@@ -26,8 +28,10 @@ InFamily(x) ==
   \/ \E m \in 0..MaxLen : x \in [form : {4}, t : 1..Len(T12), ks : KeyLists(m), th : 1..Len(TH12)]
   \/ \E m \in 0..2 : x \in [form : {5}, t : 1..Len(T12), ks : KeyLists(m), th : 1..Len(TH12)]
   \/ x \in [form : {6}, t : {1}, ks : KeyLists(1), th : 1..Len(BAD12)]
+  \* every key of the var corpus, on every var data tree: missing / missing_some must agree with var
+  \/ x \in [form : {8, 9}, t : 1..Len(T11), ks : {<<q>> : q \in 1..Len(K11)}, th : {0}]
 
-Keys(cc) == [j \in DOMAIN cc.ks |-> K12[cc.ks[j]]]
+Keys(cc) == IF cc.form \in {8, 9} THEN <<K11[cc.ks[1]]>> ELSE [j \in DOMAIN cc.ks |-> K12[cc.ks[j]]]
 RuleOf(cc) ==
   CASE cc.form = 1 -> Op(K_missing, Keys(cc))
     [] cc.form = 2 -> Op(K_missing, <<Arr(Keys(cc))>>)
@@ -36,14 +40,18 @@ RuleOf(cc) ==
     [] cc.form = 4 -> Op(K_missing_some, <<TH12[cc.th], Arr(Keys(cc))>>)
     [] cc.form = 5 -> Op(K_missing_some, <<TH12[cc.th], Op(K_merge, <<Arr(Keys(cc))>>)>>)
     [] cc.form = 6 -> Op(K_missing, <<K12[cc.ks[1]], BAD12[cc.th]>>)
-DataOf(cc) == T12[cc.t]
+    [] cc.form = 8 -> Op(K_missing, <<Str(<<113>>), K11[cc.ks[1]]>>)            \* after a first non-array operand
+    [] cc.form = 9 -> Op(K_missing_some, <<IntV(1), Arr(<<K11[cc.ks[1]]>>)>>)
+DataOf(cc) == IF cc.form \in {8, 9} THEN T11[cc.t] ELSE T12[cc.t]
 
 Init == InFamily(c) /\ phase = "new"
 Next == phase = "new" /\ phase' = "done" /\ UNCHANGED c
 Spec == Init /\ [][Next]_vars
 
 Outcome(cc) == Eval(RuleOf(cc), DataOf(cc))
-Scope(cc) == IF cc.form = 6 THEN <<>> ELSE <<"C12">>
+Scope(cc) == IF cc.form = 6 THEN <<>>
+             ELSE IF cc.form \in {8, 9} THEN (IF PinnedKey(K11[cc.ks[1]]) THEN <<"C12">> ELSE <<>>)
+             ELSE <<"C12">>
 
 \* ---- declarative reading of the statement, independent of the loops in Operators.tla
 Absent(d, k) == k.t # "z" /\ ~Lookup(d, k).found
@@ -79,6 +87,14 @@ MissingSomeCounts ==
     IN /\ o.ok
        /\ IF PresentCount(d, Keys(c)) >= need THEN SameValue(o.v, Arr(<<>>))
           ELSE SameValue(o.v, Arr(Dedup(SelectSeq2(Keys(c), d, 1), <<>>)))
+\* on the var corpus: a pinned key is reported missing exactly when var cannot find it
+AgreesWithVarCorpus ==
+  phase = "done" /\ c.form \in {8, 9} /\ PinnedKey(K11[c.ks[1]]) =>
+    LET k == K11[c.ks[1]]
+        o == Outcome(c)
+        absent == k.t # "z" /\ ~Lookup(DataOf(c), k).found
+    IN o.ok /\ (IF c.form = 8 THEN InSeqV(k, o.v.v) <=> absent
+                ELSE SameValue(o.v, IF absent THEN Arr(<<k>>) ELSE Arr(<<>>)))
 ExportCases ==
   phase = "done" => Export(<<c.form, c.t, c.ks, c.th>>, RuleOf(c), DataOf(c), Outcome(c), Scope(c), NoFlags)
 =============================================================================
